@@ -465,10 +465,15 @@ def pytest_sessionfinish(session, exitstatus):
                     )
                     continue
 
+                # changes of different categories can affect the same list, dict or call
+                # and have to be applied together
+                old_cr = ChangeRecorder()
+                apply_all(used_changes, old_cr)
+
                 cr = ChangeRecorder()
-                apply_all(used_changes, cr)
-                cr.virtual_write()
-                apply_all(changes[flag], cr)
+                apply_all(used_changes + changes[flag], cr)
+                for file in cr.files():
+                    file.source = old_cr.get_source(file.filename).new_code()
 
                 any_changes = False
 
